@@ -1,6 +1,9 @@
 package main
 
 import (
+	"time"
+	"sync"
+	"context"
 	"fmt"
 	"go/types"
 	"os"
@@ -108,6 +111,31 @@ func (b *bsym) fmtArgs(v interface{}) []interface{} {
 			out = append(out, x.t.String())
 		case string, bool:
 			out = append(out, x)
+		case float64:
+			out = append(out, x)
+		case *bslice:
+			// slices of basic values print like Go's %v
+			var parts []interface{}
+			okAll := true
+			if x != nil {
+				for k := 0; k < x.len; k++ {
+					switch y := x.arr.cells[x.off+k].v.(type) {
+					case int64:
+						parts = append(parts, int(y))
+					case float64, string, bool:
+						parts = append(parts, y)
+					case *Term:
+						parts = append(parts, y.String())
+					default:
+						okAll = false
+					}
+				}
+			}
+			if okAll {
+				out = append(out, parts)
+			} else {
+				out = append(out, fmt.Sprintf("%T", e))
+			}
 		default:
 			out = append(out, fmt.Sprintf("%T", e))
 		}
@@ -263,7 +291,7 @@ func (V *Verifier) RunBounded(h BoundedHarness, maxPaths int) *FuncResult {
 	for len(stack) > 0 {
 		d := stack[len(stack)-1]
 		stack = stack[:len(stack)-1]
-		p, taken := V.runBsymPath(fn, d, 4000000)
+		p, taken := V.runBsymPath(fn, d, 60000000)
 		npaths++
 		if npaths > maxPaths {
 			res.Err = fmt.Sprintf("bounded harness %s: more than %d paths", h.Name, maxPaths)
@@ -339,4 +367,97 @@ func boundedOverlays(verifDir string) map[string][]byte {
 		return nil
 	})
 	return ov
+}
+
+// ---------------------------------------------------------------------------
+// common-subexpression naming: the interpreter builds DAGs, the SMT printer prints trees.
+// cseTerms replaces every shared non-leaf subterm of the (quantifier-free) input by a fresh constant
+// and returns the defining equations first; the result is equisatisfiable with the input.
+
+func cseTerms(as []*Term) []*Term {
+	refs := map[*Term]int{}
+	var count func(t *Term)
+	count = func(t *Term) {
+		refs[t]++
+		if refs[t] > 1 {
+			return
+		}
+		for _, a := range t.Args {
+			count(a)
+		}
+	}
+	for _, a := range as {
+		count(a)
+	}
+	shared := 0
+	for t, n := range refs {
+		if n > 1 && len(t.Args) > 0 {
+			shared++
+		}
+	}
+	if shared < 8 {
+		return as
+	}
+	var defs []*Term
+	memo := map[*Term]*Term{}
+	var rec func(t *Term) *Term
+	rec = func(t *Term) *Term {
+		if r, ok := memo[t]; ok {
+			return r
+		}
+		if len(t.Args) == 0 || len(t.Vars) > 0 {
+			memo[t] = t
+			return t
+		}
+		args := make([]*Term, len(t.Args))
+		for i, a := range t.Args {
+			args[i] = rec(a)
+		}
+		r := mk(t.Op, t.S, args...)
+		if refs[t] > 1 && (t.S == SReal || t.S == SInt) {
+			c := Fresh("cse", t.S)
+			defs = append(defs, mk("=", SBool, c, r))
+			r = c
+		}
+		memo[t] = r
+		return r
+	}
+	var out []*Term
+	for _, a := range as {
+		out = append(out, rec(a))
+	}
+	return append(defs, out...)
+}
+
+// feasible reports whether pc ∧ c may be satisfiable (z3, short timeout; unknown counts as feasible).
+var feasCache sync.Map
+
+func (b *bsym) feasible(c *Term) bool {
+	var sb strings.Builder
+	for _, p := range b.pc {
+		sb.WriteString(fmt.Sprintf("%d,", p.id))
+	}
+	sb.WriteString(fmt.Sprintf("|%d", c.id))
+	key := sb.String()
+	if v, ok := feasCache.Load(key); ok {
+		return v.(bool)
+	}
+	as := append(append([]*Term{}, b.pc...), c)
+	as = append(as, mathAxiomInstances(as)...)
+	as = cseTerms(as)
+	sc := &Script{Asserts: as}
+	text := sc.Render(preludeFor(as), nil)
+	f, err := os.CreateTemp("", "govc-feas-*.smt2")
+	res := true
+	if err == nil {
+		f.WriteString(text)
+		f.Close()
+		st, _, _ := runSolver(context.Background(), "z3-new", []string{"-T:3"}, f.Name(), 3*time.Second)
+		os.Remove(f.Name())
+		if st == "unsat" {
+			res = false
+		}
+	}
+	feasCache.Store(key, res)
+	return res
 }
